@@ -242,6 +242,53 @@ theorem _root_.KafVerif.C28.store_view_keeps (s : Meta) :
     (storeView s).brokers = s.brokers ∧ (storeView s).cluster = s.cluster := by
   refine ⟨?_, ?_, rfl, rfl⟩ <;> simp [storeView, normTopic, List.map_map, Function.comp_def]
 
+/-! ### concurrent clients -/
+
+/-- **C28 (no cross-talk).** However many Metadata requests overlap, and whatever the others ask
+for, the reply to each request is the function `handleMetadata` of the snapshot and of ITS OWN
+request only — hence it satisfies `only_proxy` and `topology_kept` for its own request. -/
+theorem _root_.KafVerif.C28.reply_depends_only_on_own_request (s : Meta)
+    (pre post : List (Option (List ReqTopic))) (req : Option (List ReqTopic)) (host : String) (port : Int) :
+    (serveConcurrent s (pre ++ req :: post) host port)[pre.length]? = some (handleMetadata s req host port) ∧
+    ∀ r, (serveConcurrent s (pre ++ req :: post) host port)[pre.length]? = some r →
+      onlyProxy r host port = true ∧ r.topics.map topicShape = expectedShapes s req := by
+  have h : (serveConcurrent s (pre ++ req :: post) host port)[pre.length]? = some (handleMetadata s req host port) := by
+    simp [serveConcurrent]
+  refine ⟨h, ?_⟩
+  intro r hr
+  rw [h] at hr
+  cases hr
+  exact ⟨KafVerif.C28.only_proxy s req host port, KafVerif.C28.topology_kept s req host port⟩
+
+/-- Coalescing overlapping lookups is sound exactly when equal keys imply equal loads. -/
+theorem _root_.KafVerif.C28.coalescing_sound_if_key_determines_load {κ : Type} [DecidableEq κ]
+    (key : Option (List ReqTopic) → κ) (s : Meta) (reqs : List (Option (List ReqTopic))) (host : String) (port : Int)
+    (hk : ∀ r r', key r' = key r → loadMetadata s r' = loadMetadata s r) :
+    serveCoalesced key s reqs host port = serveConcurrent s reqs host port := by
+  unfold serveCoalesced serveConcurrent
+  apply List.map_congr_left
+  intro r _
+  split
+  · rename_i r' hf
+    have := List.find?_some hf
+    rw [hk r r' (by simpa using this)]
+    rfl
+  · rfl
+
+/-- **The seeded change C28-1 violates the property:** keyed by the requested NAMES only, two
+overlapping by-id requests for different topics share one load and the second client is told
+about the first client's topic. -/
+theorem _root_.KafVerif.C28.names_key_coalescing_violates :
+    ∃ (s : Meta) (r1 r2 : Option (List ReqTopic)) (host : String) (port : Int),
+      -- the second client asked for topic id 2 …
+      (expectedShapes s r2).map (·.2.1) = [.lit 2] ∧
+      -- … and is answered with topic id 1, the first client's topic
+      ((serveCoalesced namesKey s [r1, r2] host port)[1]?.map fun r => r.topics.map (·.tid)) = some [.lit 1] :=
+  ⟨{ brokers := [], controller := 0, cluster := none,
+     topics := [{ err := 0, name := some "a", tid := .lit 1, internal := false, parts := [] },
+                { err := 0, name := some "b", tid := .lit 2, internal := false, parts := [] }] },
+   some [{ name := none, tid := .lit 1 }], some [{ name := none, tid := .lit 2 }], "", 9092, by decide, by decide⟩
+
 /-! ### the code as found -/
 
 /-- **The unfixed code violates `only_proxy`:** a snapshot topic that carries an error code
